@@ -141,7 +141,7 @@ func H_C10_History() {
 	c10Keys()
 	n := 3
 	if vrt.Thorough() {
-		n = 4
+		n = 5
 	}
 	docValid := vrt.Choice("doc-invalid", 2) == 0
 	docValidSigned := vrt.Choice("doc-invalid-once-signed", 2) == 0
